@@ -76,6 +76,7 @@ class World:
         import canopen
         simenv.new_world()
         self.bus = simenv.SimBus("inline")
+        self.bus.reuse_rx = True         # the interface re-uses its receive buffer
         self.a, self.b = canopen.Network(), canopen.Network()
         self.bus.attach(self.a, "consumer")
         self.bus.attach(self.b, "producer")
